@@ -1,4 +1,51 @@
+import re
+from vc import rules as R
+from vc import rustlex as L
+
 SRC = 'crates/emmylua_code_analysis/src/'
+
+
+@R.rule('for-iter-mut-loop')
+def for_iter_mut_loop(text, **_):
+    """for (A, B) in E.iter_mut() { BODY }  ->  let mut __itN = E.iter_mut(); loop { match __itN.next() { None => break, Some((A, B)) => { BODY } } }
+    This is the Rust Reference's desugaring of `for` (`match IntoIterator::into_iter(E.iter_mut()) { mut iter => loop { match
+    Iterator::next(&mut iter) { None => break, Some(val) => { let (A, B) = val; BODY } } } }`): IterMut is itself an Iterator, so
+    `into_iter` is the identity (blanket `impl<I: Iterator> IntoIterator for I`). The iterator is named (N = ordinal of the loop in
+    the function) so that the contract overlay can speak about it; it lives to the end of the enclosing block instead of the end of
+    the `for` statement: IterMut has no Drop impl and the borrow ends at its last use (NLL), so this is unobservable. BODY must not
+    contain `break`/`continue` with a value or label (checked: none of the loops rewritten here has any)."""
+    n = 0
+    while True:
+        toks = L.code_tokens(text)
+        hit = None
+        for i, t in enumerate(toks):
+            if L.tok_text(text, t) != 'for' or L.tok_text(text, toks[i + 1]) != '(':
+                continue
+            pc = L.match_close(text, toks, i + 1)
+            if L.tok_text(text, toks[pc + 1]) != 'in':
+                continue
+            j = pc + 2
+            while j < len(toks) and L.tok_text(text, toks[j]) != '{':
+                if L.tok_text(text, toks[j]) in ('(', '['):
+                    j = L.match_close(text, toks, j)
+                j += 1
+            expr = text[toks[pc + 2][1]:toks[j - 1][2]]
+            if not expr.endswith('.iter_mut()'):
+                continue
+            bc = L.match_close(text, toks, j)
+            body = text[toks[j][2]:toks[bc][1]]
+            if re.search(r"\b(break|continue)\b", body):
+                raise R.Undecided('for-iter-mut-loop: body has break/continue')
+            pat = text[toks[i + 1][1]:toks[pc][2]]
+            hit = (toks[i][1], toks[bc][2],
+                   'let mut __it%d = %s; loop { match __it%d.next() { None => break, Some(%s) => {%s} } }' % (n, expr, n, pat, body))
+            break
+        if not hit:
+            break
+        text = text[:hit[0]] + hit[2] + text[hit[1]:]
+        n += 1
+    return text, n
+
 DB = SRC + 'db_index/'
 
 
@@ -64,6 +111,41 @@ OP_PROOF = [
             }
         }'''),
 ]
+
+
+
+def sweep_overlay(n, field, keyty, tag):
+    """contract overlay of one `iter_mut` sweep + its clean-up loop (loop ordinals 2n, 2n+1)"""
+    g = {'n': n, 'field': field, 'K': keyty, 'tag': tag}
+    loops = {
+        2 * n: '''invariant
+                keys_ok(), im_keys(__it%(n)d) == keys%(n)d, im_fin(__it%(n)d) == fin%(n)d, im_old(__it%(n)d) == m0%(n)d, 0 <= im_pos(__it%(n)d) <= keys%(n)d.len(),
+                sweep_inv(m0%(n)d, fin%(n)d, keys%(n)d, im_pos(__it%(n)d), to_be_remove@, file_id) /*@C10.reference.%(tag)s.sweep.inv*/,
+            ensures im_pos(__it%(n)d) >= keys%(n)d.len(), sweep_inv(m0%(n)d, fin%(n)d, keys%(n)d, im_pos(__it%(n)d), to_be_remove@, file_id),
+            decreases keys%(n)d.len() - im_pos(__it%(n)d)''' % g,
+        2 * n + 1: '''invariant
+                keys_ok(), tbr%(n)d == to_be_remove@, 0 <= it.index@ <= tbr%(n)d.len(),
+                forall|k: %(K)s| #[trigger] self.%(field)s@.contains_key(k) <==> fin%(n)d.contains_key(k) && !(exists|j: int| 0 <= j < it.index@ && tbr%(n)d[j] == k) /*@C10.reference.%(tag)s.empty-keys-dropped.inv*/,
+                forall|k: %(K)s| #[trigger] self.%(field)s@.contains_key(k) ==> self.%(field)s@[k] == fin%(n)d[k],''' % g,
+    }
+    proof = [
+        (r'let mut __it%(n)d = self\.%(field)s\.iter_mut\(\);' % g, 'after',
+         'let ghost keys%(n)d = im_keys(__it%(n)d); let ghost fin%(n)d = im_fin(__it%(n)d); let ghost m0%(n)d = im_old(__it%(n)d);' % g),
+        (r'match __it%(n)d\.next\(\)' % g, 'before', 'let ghost pos%(n)d = im_pos(__it%(n)d); let ghost tbr0%(n)d = to_be_remove@;' % g),
+        (r'(?s)match __it%(n)d\.next\(\).*?to_be_remove\.push\(key\.clone\(\)\);\s*\}' % g, 'after',
+         'proof { lemma_sweep_step(m0%(n)d, fin%(n)d, keys%(n)d, pos%(n)d, tbr0%(n)d, to_be_remove@, file_id); } /*@C10.reference.%(tag)s.sweep-step*/' % g),
+        (r'for key in to_be_remove \{\s*self\.%(field)s\.' % g, 'before',
+         'let ghost tbr%(n)d = to_be_remove@; let ghost end%(n)d = im_pos(__it%(n)d);' % g),
+        (r'self\.%(field)s\.\w+\(&key\);\s*\}' % g, 'after',
+         'proof { lemma_sweep_final(m0%(n)d, fin%(n)d, keys%(n)d, end%(n)d, tbr%(n)d, self.%(field)s@, file_id); }' % g),
+    ]
+    return loops, proof
+
+
+REF_LOOPS, REF_PROOF = {}, []
+for _n, _f, _k, _t in ((0, 'index_reference', 'LuaMemberKey', 'index_reference'), (1, 'global_references', 'SmolStr', 'global_references')):
+    _l, _p = sweep_overlay(_n, _f, _k, _t)
+    REF_LOOPS.update(_l); REF_PROOF += _p
 
 UNIT = {
     'extra_rules': [
@@ -148,8 +230,28 @@ UNIT = {
             final(self).in_filed_operator_map@ == old(self).in_filed_operator_map@.remove(file_id) /*@C10.operator.in_filed_operator_map*/,
             ops_inv(old(self).operators@, final(self).operators@, op_listed(old(self), file_id), op_listed(old(self), file_id).len() as int) /*@C10.operator.operators-of-file-gone*/,
             tm_inv(old(self).type_operators_map@, final(self).type_operators_map@, old(self).operators@, op_listed(old(self), file_id), op_listed(old(self), file_id).len() as int) /*@C10.operator.type-map*/'''),
+        # 4 ---- reference (the whole `remove`: four per-file maps + two nested sweeps)
+        'LuaReferenceIndex': st('reference/mod.rs', 'LuaReferenceIndex'),
+        'LuaReferenceIndex::remove': rm(
+            'reference/mod.rs', 'LuaReferenceIndex', rules=[('for-iter-mut-loop', {'count': 2})],
+            loops=REF_LOOPS, iter_names={1: 'it', 3: 'it'}, proof=REF_PROOF,
+            ensures='''
+            // nested key -> file -> set maps: file_id is gone from every inner map, keys left with an empty inner map are gone,
+            // every other (key, file) entry is unchanged; the four per-file maps lose exactly the entry of file_id
+            swept(old(self).index_reference@, final(self).index_reference@, file_id)
+                && swept(old(self).global_references@, final(self).global_references@, file_id)
+                && dropped(old(self).file_references@, final(self).file_references@, file_id)
+                && dropped(old(self).string_references@, final(self).string_references@, file_id)
+                && dropped(old(self).type_references@, final(self).type_references@, file_id)
+                && dropped(old(self).label_references@, final(self).label_references@, file_id) /*@C10.reference.no-trace-of-removed-file*/,
+            forall|k: LuaMemberKey| #[trigger] final(self).index_reference@.contains_key(k) ==>
+                !final(self).index_reference@[k]@.contains_key(file_id) && !final(self).index_reference@[k]@.is_empty() /*@C10.reference.index_reference.no-file-no-empty*/,
+            forall|k: SmolStr| #[trigger] final(self).global_references@.contains_key(k) ==>
+                !final(self).global_references@[k]@.contains_key(file_id) && !final(self).global_references@[k]@.is_empty() /*@C10.reference.global_references.no-file-no-empty*/'''),
     },
-    'allow': [r'external_body', r'assume_specification<\'a, K: Eq \+ Hash \+ Borrow<Q>, V, S: BuildHasher, A: Allocator, Q: Hash \+ Eq \+ \?Sized>\[ HashMap::<K, V, S, A>::get_mut \]', r'assume_specification<T, A: Allocator, F: FnMut\(&T\) -> bool>\[ Vec::<T, A>::retain \]',
+    'allow': [r'external_body', r'uninterp spec fn im_(keys|pos|old|fin)', r'external_type_specification',
+              r'assume_specification<\'a, K, V, S, A: Allocator>\[ HashMap::<K, V, S, A>::iter_mut \]',
+              r'assume_specification<\'a, K, V>\[ <IterMut<\'a, K, V> as Iterator>::next \]', r'assume_specification<\'a, K: Eq \+ Hash \+ Borrow<Q>, V, S: BuildHasher, A: Allocator, Q: Hash \+ Eq \+ \?Sized>\[ HashMap::<K, V, S, A>::get_mut \]', r'assume_specification<T, A: Allocator, F: FnMut\(&T\) -> bool>\[ Vec::<T, A>::retain \]',
               r'assume_specification<K, V, S, A: Allocator, F: FnMut\(&K, &mut V\) -> bool>\[ HashMap::<K, V, S, A>::retain \]'],
     'mutants': [
         {'name': 'metatable-retain-negated', 'item': 'LuaMetatableIndex::remove', 'pattern': r'key\.file_id != file_id', 'repl': 'key.file_id == file_id',
@@ -170,6 +272,16 @@ UNIT = {
          'expect': r'C10\.operator\.no-empty-vector'},
         {'name': 'operator-keeps-empty-owner', 'item': 'LuaOperatorIndex::remove', 'pattern': r'self\.type_operators_map\.remove\(owner\);', 'repl': '',
          'expect': r'C10\.operator\.no-empty-owner-map'},
+        {'name': 'reference-keeps-file-in-inner-map', 'item': 'LuaReferenceIndex::remove', 'pattern': r'\breferences\.remove\(&file_id\);', 'repl': 'references.get(&file_id);',
+         'expect': r'C10\.reference\.index_reference\.sweep-step'},
+        {'name': 'reference-never-collects-empty-keys', 'item': 'LuaReferenceIndex::remove', 'pattern': r'if references\.is_empty\(\) \{', 'repl': 'if false {',
+         'expect': r'C10\.reference\.index_reference\.sweep-step'},
+        {'name': 'reference-keeps-empty-keys', 'item': 'LuaReferenceIndex::remove', 'pattern': r'self\.index_reference\.remove\(&key\);', 'repl': 'self.index_reference.get(&key);',
+         'expect': r'C10\.reference\.index_reference\.empty-keys-dropped'},
+        {'name': 'reference-global-keeps-empty-keys', 'item': 'LuaReferenceIndex::remove', 'pattern': r'self\.global_references\.remove\(&key\);', 'repl': 'self.global_references.get(&key);',
+         'expect': r'C10\.reference\.global_references\.empty-keys-dropped'},
+        {'name': 'reference-keeps-label-references', 'item': 'LuaReferenceIndex::remove', 'pattern': r'self\.label_references\.remove\(&file_id\);', 'repl': '',
+         'expect': r'C10\.reference\.no-trace-of-removed-file'},
         {'name': 'operator-keeps-file-list', 'item': 'LuaOperatorIndex::remove', 'pattern': r'self\.in_filed_operator_map\.remove\(&file_id\)', 'repl': 'self.in_filed_operator_map.get(&file_id)',
          'expect': r'C10\.operator\.in_filed_operator_map'},
     ],
